@@ -19,7 +19,7 @@ def claim(pid, technique, text, note, ref):
     CLAIMS[pid] = dict(technique=technique, text=text, note=note, ref=ref)
 
 
-TRUSTED = " Trusted base: CPython ast; call resolution by lexical scope/MRO/class-hierarchy analysis; library calls have their documented semantics."
+TRUSTED = " Trusted base: CPython ast; call resolution by lexical scope/MRO/class-hierarchy analysis; library calls have their documented semantics; CANON's normalisations are behaviour-preserving (a function that differs from the verified reference may be judged on its canonical normal form, DESIGN.md section 10a)."
 
 TECHNIQUE = {
     "C01": "dataflow threading + orientation-parity + field-completeness rules over AST/CFG",
